@@ -155,6 +155,35 @@ def families(prop, tier):
             fams.append(dict(name='bouncepool-dict', mode='dfs', depth=5, budget=400 if q else 20000,
                              cfg=dict(backend='dict', gate_store=False, nmsgs=3, nrcpt=2, backoff=[0, None], store_pool=sp,
                                       outcomes=['ok', 'P2', 'T1', 'map:pt', 'map:pp'])))
+    # F6: the repository's own relays between the queue and a scripted downstream (the relay result is recorded, not scripted)
+    if prop in ('C01',):
+        cases = []
+        conn = [{}, {'rcpt': [250, 450, 550]}, {'rcpt': [550, 250, 450]}, {'rcpt': [450, 450, 450]}, {'rcpt': [550, 550, 550]},
+                {'eod': 450}, {'eod': 550}, {'mail': 450}, {'mail': 550}, {'data': 554}, {'data': 451}, {'banner': 421}, {'banner': 554},
+                {'eod': 'disconnect'}, {'rcpt': [250, 'disconnect']}, {'ehlo': 'malformed'}, {'eod': 'stall'}, {'mail': 'stall'},
+                {'eod': [250, 450, 550]}, {'eod': [450, 250, 250]}, {'eod': [550, 450, 250]}, {'rcpt': [250, 550, 250], 'eod': [450, 250, 550]}]
+        for kind in ('smtp', 'lmtp'):
+            for nr in ((2, 3) if q else (1, 2, 3)):
+                for bo in ([0, None], [None], [4, 0, None]):
+                    for i1, s1 in enumerate(conn):
+                        for i2, s2 in enumerate(conn if len(bo) > 1 else [{}]):
+                            if q and len(bo) > 1 and (i1 * 7 + i2 * 3 + nr) % 5:
+                                continue
+                            be = ('dict', 'disk', 'redis', 'cloud')[(i1 + i2 + nr) % 4] if not q else ('dict', 'redis')[(i1 + i2) % 2]
+                            cases.append(dict(backend=be, gate_store=False, nmsgs=1 if (i1 + i2) % 3 else 2, nrcpt=nr, backoff=bo,
+                                              real_relay=dict(kind=kind, scripts=[s1, s2, {}], pipelining=bool((i1 + i2) % 2))))
+        fams.append(dict(name='realrelay-net', mode='real', cases=cases))
+        cases = []
+        for nr in (1, 2, 3):
+            for beh in itertools.product(['ok', 'T', 'P', 'stall'], repeat=nr):
+                if beh.count('stall') > 1 or (q and nr == 3 and 'stall' not in beh and hash(beh) % 3):
+                    continue
+                for bo in ([None], [0, None]):
+                    if 'stall' in beh and len(bo) > 1 and q:
+                        continue
+                    cases.append(dict(backend='dict', gate_store=False, nmsgs=1, nrcpt=nr, backoff=bo,
+                                      real_relay=dict(kind='pipe', behaviour={i + 1: b for i, b in enumerate(beh)}, timeout=7)))
+        fams.append(dict(name='realrelay-pipe', mode='real', cases=cases))
     # F4: bounce policy: null senders, factory returning None, headers only, failing bounces
     if prop in ('C13',):
         for extra in (dict(), dict(null_sender=[1]), dict(factory_none=True), dict(headers_only=True)):
@@ -180,11 +209,37 @@ def main():
         elif fam['mode'] == 'plans':
             for k in range(8):
                 items.append((fam, k))
+        elif fam['mode'] == 'real':
+            for k in range(16):
+                items.append((fam, k))
         else:
             for k in range(4):
                 items.append((fam, k))
     for idx, (fam, sub) in enumerate(items):
         if idx % nshards != shard:
+            continue
+        if fam['mode'] == 'real':
+            for ci, rcfg in enumerate(fam['cases']):
+                if ci % 16 != sub:
+                    continue
+                rcfg = dict(rcfg)
+                rcfg.setdefault('factory_none', False)
+
+                def on_real(ev, taken, fam=fam, cfg=rcfg):
+                    stats['executions'] += 1
+                    nids = max([e.get('id', 0) for e in ev if isinstance(e.get('id', 0), int)] + [1])
+                    for e in ev:
+                        if e['t'] == 'enq_ret':
+                            nids = max([nids] + e['ids'])
+                    shown = {k: v for k, v in cfg.items() if k not in ('outcomes', 'real_relay')}
+                    shown['relay'] = json.dumps(cfg['real_relay'], sort_keys=True)
+                    f.write(json.dumps({'id': shard + n[0] * nshards, 'cls': fam['name'] + '-' + cfg['real_relay']['kind'] + '-' + cfg['backend'],
+                                        'cfg': denull(shown), 'nids': nids, 'taken': taken, 'ev': ev}, separators=(',', ':')) + '\n')
+                    n[0] += 1
+                sc = qdrv.Scenario(rcfg, backends.maker(rcfg['backend']))
+                ev, taken = sc.run(lambda step, opts: None)
+                on_real(ev, taken)
+            stats['families'] += 1
             continue
         cfg = dict(fam['cfg'])
         cfg.setdefault('factory_none', False)
